@@ -318,6 +318,46 @@ func c05Shapes(thorough bool) []shape {
 			}
 		}
 	}
+	// rows and families around the widths of the KeyValue length fields (2 bytes for the
+	// row, 1 byte for the family): the request on the wire is the one built, or the call is
+	// refused when it is built - never a different, valid cell
+	for _, kind := range mutKinds {
+		for _, rl := range []int{255, 256, 32767, 32768, 65535, 65536, 65539} {
+			for _, fl := range []int{1, 127, 128, 255, 256, 258} {
+				if !thorough && rl != 65535 && rl != 65536 && fl != 255 && fl != 256 {
+					continue
+				}
+				kind, rl, fl := kind, rl, fl
+				name := fmt.Sprintf("%s|lengths|row=%d|fam=%d", kind.name, rl, fl)
+				out = append(out, shape{name, func(ctx context.Context) (hrpc.Call, op) {
+					// contents chosen so that a truncated length still frames a well-formed cell
+					lrow := append([]byte("abc\x02cf"), bytes.Repeat([]byte("r"), rl)...)[:rl]
+					fam := ("cf" + strings.Repeat("x", fl))[:fl]
+					v := map[string]map[string][]byte{fam: {"q": []byte("v1")}}
+					var opts []func(hrpc.Call) error
+					if kind.oneVer {
+						opts = append(opts, hrpc.DeleteOneVersion())
+					}
+					m, err := kind.mk(ctx, []byte("t"), lrow, v, opts...)
+					if err != nil {
+						return nil, op{}
+					}
+					want := op{Method: "Mutate", Region: regName, Row: string(lrow), Durability: "USE_DEFAULT", Cells: specCells(kind, lrow, v, nil)}
+					switch kind.name {
+					case "put":
+						want.Kind = "PUT"
+					case "append":
+						want.Kind = "APPEND"
+					case "increment":
+						want.Kind = "INCREMENT"
+					default:
+						want.Kind = "DELETE"
+					}
+					return m, want
+				}})
+			}
+		}
+	}
 	// check-and-put
 	out = append(out, shape{"check-and-put", func(ctx context.Context) (hrpc.Call, op) {
 		p, _ := hrpc.NewPut(ctx, []byte("t"), []byte(row), map[string]map[string][]byte{"f": {"q": []byte("new")}})
